@@ -475,7 +475,7 @@ def install_calls():
     def st_For(self, st, s):
         ctx = self.ctx
         it = s.iter
-        if not (isinstance(it, ast.Call) and isinstance(it.func, ast.Name) and it.func.id in ("range", "reversed", "enumerate")):
+        if not (isinstance(it, ast.Call) and isinstance(it.func, ast.Name) and it.func.id in ("range", "reversed", "enumerate", "zip", "count")):
             if isinstance(it, (ast.List, ast.Tuple)) and all(isinstance(x, ast.Constant) for x in it.elts):
                 self.unroll(st, s, [self.ev(st, x) for x in it.elts])
                 return
